@@ -64,3 +64,7 @@ simple_frame_codec!(
     },
     reset_stream_tag!()
 );
+
+#[cfg(all(aws_s2n_quic_verif, test))]
+#[path = "/verif/harness/core/frame_reset_stream.rs"]
+mod verif;
